@@ -145,7 +145,7 @@ fn start_watchdog(id: &'static str) {
         let _ = std::fs::create_dir_all(format!("{}/replays", crate::report::out_dir()));
         let _ = std::fs::write(&path, serde_json::json!({"property": id, "summary": "case did not terminate within the watchdog limit", "case": {"op": "hang", "input": what}}).to_string());
         println!("VIOLATION property={} replay={}", id, path);
-        println!("  a single case has consumed more than {} s of CPU time on its thread (or been blocked for more than {} s) without finishing: {:?}", crate::watch::LIMIT_S, crate::watch::WALL_LIMIT_S, what);
+        println!("  a single case has consumed more than its CPU budget on its thread ({} s; {} s for the few deliberately large cases) or been blocked for more than {} s without finishing: {:?}", crate::watch::LIMIT_S, crate::watch::BIG_CASE_LIMIT_S, crate::watch::WALL_LIMIT_S, what);
         std::process::exit(1);
     });
 }
